@@ -40,6 +40,7 @@ func TestC39(t *testing.T) {
 	m.Rule("A: case i → (key type/size, cipher mode, KDF rounds) by fixed mixed-radix tables over i, passphrase/comment class from the case PRNG; ssh-keygen generates, the 4 parser entry points are compared with the .pub blob and an independent signature check. " +
 		"B: key (Ed25519/ECDSA from the case PRNG, RSA from a per-process pool) × comment × passphrase class → Marshal → ssh-keygen -y/-p. " +
 		"C: class = c39Classes[i mod len] × protection {none, aes256-ctr, aes256-cbc} = (i/len) mod 3; one inconsistency per class, fresh keys per case. " +
+		"D: key size as a dimension: RSA moduli {1024,1025,1535,(1536),2047,2048,2049,3071,(3072,4095,4096)} from ssh-keygen -b and crypto/rsa.GenerateKey, hand-built keys from primes of unequal length, ECDSA P-256/384/521, through openssh/PEM/PKCS#8 forms written by ssh-keygen, the package, the standard library and the harness encoder. " +
 		"distinct = (stream, key type, cipher/class, passphrase class, outcome); non-trivial = reached a parser verdict that an oracle judged")
 	m.Assume("ssh-keygen (OpenSSH 9.2) is a correct writer/reader of PROTOCOL.key; h/ref/sshkeyfmt (own codec + PKCS#1 arithmetic, validated against ssh-keygen, openssl and real-token vectors in its unit tests); crypto/ecdsa, crypto/ed25519, math/big of the standard library")
 	m.Assume("harness-built encrypted files use the repository's bcrypt_pbkdf through the verif hook only to BUILD inputs; ssh-keygen is sampled on the encrypted control files as a cross-check")
@@ -62,6 +63,8 @@ func TestC39(t *testing.T) {
 	m.Cases("go2keygen", nB, h.goToKeygen)
 	nC := m.N(3*len(c39Classes)*4, 3*len(c39Classes)*40)
 	m.Cases("inconsistent", nC, h.inconsistent)
+	nD := len(sizeCases(m.Thorough())) * m.N(1, 3)
+	m.Cases("key-size", nD, h.keySizes)
 
 	m.Gate("A_same_key", nA/4, "ssh-keygen-written keys (supported type and cipher) parsed and compared with the .pub key")
 	m.Gate("A_wrong_passphrase_judged", nA/8, "wrong passphrases tried on ssh-keygen-encrypted keys")
@@ -83,6 +86,14 @@ func TestC39(t *testing.T) {
 	for _, rc := range []string{"rsa-p-foreign-crt-consistent", "rsa-d-plus-lcm", "rsa-e-one-d-one", "rsa-e-even-outer-too", "rsa-n-not-pq", "rsa-d-wrong", "rsa-e-bad", "ed-halves-seedflip", "ed-halves-outerA"} {
 		m.Gate("C_class:"+rc, 12, "RSA/Ed25519 component class presented under all three protections")
 	}
+	m.Gate("D_rsa_odd_modulus_length", 5, "RSA moduli of odd bit length (crypto/rsa.GenerateKey(odd), hand-built, ssh-keygen -b odd)")
+	m.Gate("D_rsa_prime_longer_than_half_modulus", 6, "RSA keys whose larger prime is longer than floor(bitlen(N)/2)")
+	m.Gate("D_rsa_primes_differ_2+_bits", 2, "RSA keys from primes differing by two or more bits in length")
+	for _, p := range []string{"keygen-openssh", "keygen-pem", "keygen-pkcs8", "go-openssh", "go-openssh-passphrase", "go-pkcs8", "go-pkcs1", "harness-openssh"} {
+		m.Gate("D_path_ok:"+p, 6, "valid keys of varied size parsed to the same key through this path")
+	}
+	m.Gate("D_path_ok:keygen-openssh-passphrase", 4, "passphrase-protected ssh-keygen keys of varied size")
+	m.Gate("D_keygen_agrees:go-openssh", 8, "Go-written keys of varied size read back by ssh-keygen")
 	m.Gate("C_accepted_through_monitor", nC/20, "accepted keys that went through sign/verify + outer-key comparison")
 }
 
